@@ -450,6 +450,7 @@ def optimize_kl(likelihood_energy,
         _barrier(comm(iglobal))
 
         if _handle_terminate_callback(terminate_callback, iglobal, comm):
+            pop_sseq()
             break
         _barrier(comm(iglobal))
 
